@@ -5,12 +5,23 @@ Monitors
         the map that was written: shape, NaN mask element-wise, values within one quantisation step of the format
         (step taken from the *file* by an independent decoder), dx and wavelength to float32 resolution.  A
         mismatch is classified by mechanism (orientation candidate that does match, transposed shape, int16
-        overflow of the declared scale, ...) and the class is the violation key.
+        overflow of the declared scale, ...) and the class is the violation key.  Every map class is run in the four
+        data-dtype x config.precision combinations (float64/float32 data, precision 64/32) plus integer containers,
+        with python / numpy.float64 / numpy.float32 scalars for dx and wavelength, C / Fortran / transposed-view /
+        strided-slice memory layouts, and a *re-save* of what the reader returned (read -> write -> read).
+  history.*                                          sequences of writes in one process (calibrated then dx == 0, the
+        Interferogram default dx, changing dx / wavelength / shape / NaN pattern / dtype / precision, the same array
+        object twice, Zygo and Code V interleaved), every file judged on its own against the map and scalars *it*
+        was written with, then all files re-read in reverse order and once more after the caller scribbled over the
+        arrays the first read returned.
+  writer.contract.* / reader.contract.*              call-level contracts on write_zygo_dat, write_codev_gridint,
+        read_zygo_dat, read_codev_gridint (also on the calls made by Interferogram.save_zygo_dat / from_zygo_dat): the
+        bytes on disk, decoded by the independent decoder (vp/refmodels/instrfile.py), are the map / spacing /
+        wavelength the writer was given; what the reader returns is what the independent decoder reads.  These judge
+        each call on its own, so they are independent of whatever was written or read before in the process.
   truncation.zygo / truncation.codev                 fault enumeration: for EVERY prefix length 0..len-1 of a written
         file the reader must raise, or return the untruncated result when no sample lost a byte, or return the map
-        with NaN at every sample that lost a byte together with a warning.
-  reader.contract                                    post-condition on every read_zygo_dat call (also the ones made by
-        Interferogram.from_zygo_dat): phase is 2-D with the shape the header declares.
+        with NaN at every sample that lost a byte together with a warning (both precisions).
 All files live in one tempfile.TemporaryDirectory removed at exit.
 """
 import contextlib
@@ -25,21 +36,56 @@ import numpy as np
 from ..contracts import attach, detach_all
 from ..core import shape_class
 from ..refmodels import instrfile as ref
+from ..util import precision
 
-RULE = ('round trips: shape classes (1xN, Nx1, square, non-square, odd/even; enumerated smallest first, then random) x '
-        'value classes (mixed, all-positive small/large, all-negative, non-negative with zeros, constant +/-, all-zero, '
-        'tiny, huge) x NaN patterns (none, corner, asymmetric blob, whole row) x writer argument forms, random fill, dx and '
-        'wavelength log-uniform; a case is non-trivial when the map has >= 2 samples; distinct = distinct descriptor. '
-        'truncation: every prefix length 0..len-1 of each written file is one case')
+RULE = ('round trips: shape classes (1xN, Nx1, square, non-square, odd/even; enumerated smallest first, then random, incl. '
+        'extreme aspect ratios) x value classes (mixed, all-positive small/large, all-negative, non-negative with zeros, '
+        'constant +/-, all-zero, tiny, huge) x NaN patterns (none, corner, asymmetric blob, whole row) x configuration '
+        '(float64 / float32 / integer data x config.precision 64 / 32) x writer argument forms x scalar types of dx and '
+        'wavelength x memory layouts, random fill, dx and wavelength log-uniform, each followed for a part of the cases by a '
+        're-save of the array the reader returned; histories: scripted and random sequences of writes (dx == 0 after a '
+        'calibrated write, Interferogram default dx, changing dx / wavelength / shape / NaN pattern / dtype / precision, the '
+        'same object twice, both formats interleaved) then reads in reverse order; a case is non-trivial when the map has '
+        '>= 2 samples; distinct = distinct descriptor.  truncation: every prefix length 0..len-1 of each written file is one case')
 ASSUMPTIONS = ['the map handed to the writer is the reference; one quantisation step is lambda/32768 (Zygo, phase_res 1) and '
                '1000*WVL/|SSZ| nm as declared in the written Code V header, decoded by an independent parser',
+               'single-precision allowance: when the data are float32, config.precision is 32 or the wavelength is a '
+               'numpy.float32, values may additionally differ by 1e-4 relative (measured round-off of the float32 '
+               'chain <= 1.7e-7 relative); float64 / integer data under precision 64 get 2^-23 relative (the float32 header field)',
                'a sample is "missing" in a prefix when not all of its bytes (Zygo: 4 bytes, Code V: its decimal token) are '
                'inside the prefix; sample order in the file is row-major from the top row (MetroPro / Code V convention)',
-               'all-NaN maps and Code V FIL (intensity) files are outside the domain (height maps with >= 1 finite sample)']
-REQUIRED = ['roundtrip.zygo', 'roundtrip.codev', 'roundtrip.ifg', 'truncation.zygo', 'truncation.codev']
+               'all-NaN maps, maps beyond the int32 range of the Zygo format and Code V FIL (intensity) files are outside the '
+               'domain (height maps with >= 1 finite sample); dx == 0 means "no lateral calibration" and must read back as 0']
+REQUIRED = ['roundtrip.zygo', 'roundtrip.codev', 'roundtrip.ifg', 'truncation.zygo', 'truncation.codev',
+            'roundtrip.zygo.resave', 'roundtrip.ifg.resave', 'roundtrip.codev.resave',
+            'history.zygo', 'history.ifg', 'history.codev', 'history.re-read',
+            'writer.contract.zygo', 'writer.contract.codev', 'reader.contract', 'reader.contract.zygo-eq-decoder',
+            'reader.contract.codev-eq-decoder']
 
 CTX = None
 F32 = 2.0 ** -23
+LOWPREC_RTOL = 1e-4
+
+
+# ---------------------------------------------------------------------------------------------- tolerance
+def _is32():
+    from prysm.conf import config
+    return config.precision is np.float32
+
+
+def lowprec(z, wl=None):
+    """True when single-precision arithmetic is legitimately part of the chain for this call."""
+    dt = getattr(z, 'dtype', None)
+    return (dt is not None and dt.kind == 'f' and dt.itemsize < 8) or _is32() or isinstance(wl, np.float32)
+
+
+def tolerance(z, step, low):
+    z = np.abs(np.nan_to_num(np.asarray(z, dtype=float)))
+    return step * (1 + 1e-9) + (LOWPREC_RTOL if low else F32) * z
+
+
+def scalar_tol(v, low):
+    return (8 * F32 if low else F32) * abs(float(v))
 
 
 # ---------------------------------------------------------------------------------------------- comparison
@@ -74,6 +120,8 @@ def classify(got, orig, tol):
     got = np.asarray(got)
     if got.ndim != 2:
         return 'not-2d', None
+    got = got.astype(float)
+    orig = np.asarray(orig, dtype=float)
     if _match(got, orig, tol):
         return 'ok', (lambda t: t)
     if got.shape != orig.shape:
@@ -94,11 +142,25 @@ def classify(got, orig, tol):
     return 'value>1step', None
 
 
+def _maxerr(got, z):
+    got = np.asarray(got, dtype=float)
+    z = np.asarray(z, dtype=float)
+    if got.shape != z.shape:
+        return None
+    d = got - z
+    return float(np.nanmax(np.abs(d))) if np.isfinite(d).any() else None
+
+
 # ---------------------------------------------------------------------------------------------- generators
 SHAPES_ENUM = [(1, 2), (2, 1), (2, 2), (1, 5), (4, 1), (2, 3), (3, 2), (3, 3), (3, 4), (4, 3), (4, 4), (1, 8), (7, 1),
-               (5, 5), (4, 7), (7, 4), (5, 8), (6, 6), (9, 5), (8, 8)]
+               (5, 5), (4, 7), (7, 4), (5, 8), (6, 6), (9, 5), (8, 8), (1, 64), (97, 1), (2, 50), (33, 3), (16, 16)]
 VALUE_CLASSES = ['mixed', 'pos-small', 'pos-large', 'neg', 'neg-small', 'nonneg-zero', 'const+', 'const-', 'zero', 'tiny', 'huge']
 NAN_CLASSES = ['none', 'corner', 'blob', 'row']
+# (data dtype, config.precision); integer containers only make sense for maps without invalid samples
+CFGS = [('float64', 64), ('float32', 64), ('float64', 32), ('float32', 32)]
+INT_CFGS = [('int32', 64), ('int16', 32), ('int64', 64)]
+SCALARS = ['py', 'np64', 'np32']
+LAYOUTS = ['C', 'F', 'T', 'S']
 
 
 def make_values(vcls, shape, rng, fmt, wavelength):
@@ -159,149 +221,768 @@ def put_nans(ncls, z, rng):
     return 'corner'
 
 
+def as_layout(z, layout):
+    """The same map in another memory layout (the file must not depend on strides)."""
+    if layout == 'F':
+        return np.asfortranarray(z)
+    if layout == 'T':
+        return np.ascontiguousarray(z.T).T                      # transposed view of a C array
+    if layout == 'S':
+        big = np.full((2 * z.shape[0] + 1, 3 * z.shape[1] + 2), -777.0).astype(z.dtype)
+        v = big[1::2, 2::3]                                     # non-contiguous strided slice
+        v[...] = z
+        return v
+    return z
+
+
+def as_dtype(z, dt):
+    """Cast the float64 master map to the container of the case; integer containers hold the rounded map."""
+    if np.dtype(dt).kind in 'iu':
+        info = np.iinfo(dt)
+        return np.clip(np.rint(z), info.min + 1, info.max - 1).astype(dt)
+    return z.astype(dt)
+
+
+def as_scalar(v, kind):
+    return {'py': float, 'np64': np.float64, 'np32': np.float32}[kind](v)
+
+
+# ---------------------------------------------------------------------------------------------- attribution helpers
+def cfg_parts(z, wl=None):
+    """The non-default (single precision / integer) ingredients of a call."""
+    parts = []
+    dt = getattr(z, 'dtype', None)
+    if dt is not None and dt.kind == 'f' and dt.itemsize < 8:
+        parts.append('float32-data')
+    if dt is not None and dt.kind in 'iu':
+        parts.append('integer-data')
+    if isinstance(wl, np.float32):
+        parts.append('float32-wavelength')
+    if _is32():
+        parts.append('precision32')
+    return parts
+
+
+def with_parts(z, wl, parts):
+    """(map, wavelength, precision) of the same case with only `parts` non-default."""
+    z2 = np.array(z, dtype=float)
+    if 'float32-data' in parts:
+        z2 = z2.astype(np.float32)
+    if 'integer-data' in parts:
+        z2 = np.array(z, copy=True)
+    w = None if wl is None else (np.float32(wl) if 'float32-wavelength' in parts else float(wl))
+    return z2, w, 32 if 'precision32' in parts else 64
+
+
+def attribute_cfg(parts, reproduces):
+    """Key suffix naming the configuration a failure belongs to: '' when it also fails in the default configuration
+    (float64 data, python scalars, precision 64), the single non-default ingredient that reproduces it alone, else all
+    of them.  `reproduces(parts)` re-runs the failing call with only `parts` non-default (only ever called on a failure)."""
+    if not parts:
+        return ''
+    try:
+        if reproduces([]):
+            return ''
+        if len(parts) > 1:
+            for p_ in parts:
+                if reproduces([p_]):
+                    return '/' + p_
+    except Exception:  # noqa
+        pass
+    return '/' + '+'.join(parts)
+
+
+def fired(ctx, prefix):
+    """First violation key already recorded in this process that starts with `prefix` (plain, history-free key), or None."""
+    for k in ctx.violations:
+        if k == prefix or k.startswith(prefix + '/'):
+            if '/history/' not in k and '/writer/' not in k and '/reader/' not in k:
+                return k
+    return None
+
+
+# ---------------------------------------------------------------------------------------------- contracts
+_MEM = {'any_cal': False, 'last': None}     # the contracts' own memory of earlier Zygo writes in this process (labels only)
+
+
+def _path_of(f):
+    if isinstance(f, (str, os.PathLike)):
+        return os.fspath(pathlib.Path(f).expanduser())
+    name = getattr(f, 'name', None)
+    return name if isinstance(name, str) else None
+
+
+def _bind(names, args, kwargs, defaults=None):
+    a = dict(defaults or {})
+    a.update(zip(names, args))
+    a.update(kwargs)
+    return a
+
+
+def dx_class(dx):
+    """Label of a Zygo write by what this process wrote before it (header state is the only thing that could survive)."""
+    last = _MEM['last']
+    if dx == 0:
+        return 'dx0-after-calibrated' if _MEM['any_cal'] else 'dx0'
+    if last is None:
+        return 'calibrated'
+    if last[0] == 0:
+        return 'calibrated-after-dx0'
+    return 'calibrated' if last[0] == dx else 'dx-changed'
+
+
+def _step_class(prev, dx, wl, shape):
+    """Label of a history step relative to the previous write of the same format."""
+    if prev is None:
+        return 'first-write'
+    pdx, pwl, pshape = prev
+    if shape != pshape:
+        return 'shape-changed'
+    if wl != pwl:
+        return 'wavelength-changed'
+    if dx != pdx:
+        return 'dx-changed'
+    return 'same-args-again'
+
+
+def pre_write_zygo(args, kwargs):
+    a = _bind(['file', 'phase', 'dx', 'wavelength', 'intensity'], args, kwargs, {'wavelength': 0.6328})
+    try:
+        return np.array(a['phase'], copy=True)
+    except Exception:  # noqa
+        return None
+
+
+def post_write_zygo(z, args, kwargs, result):
+    from prysm import io as pio
+    a = _bind(['file', 'phase', 'dx', 'wavelength', 'intensity'], args, kwargs, {'wavelength': 0.6328})
+    dx, wl = a['dx'], a['wavelength']
+    try:
+        cur = (float(dx), float(wl), tuple(np.shape(z)))
+    except Exception:  # noqa
+        return
+    hist = dx_class(cur[0])
+    prev = _MEM['last']
+    wl_hist = 'changed' if prev is not None and prev[1] != cur[1] else 'first-or-same'
+    _MEM['last'] = cur
+    _MEM['any_cal'] = _MEM['any_cal'] or cur[0] != 0
+    path = _path_of(a['file'])
+    if z is None or z.ndim != 2 or z.size == 0 or not np.isfinite(z).any() or path is None or not os.path.exists(path) \
+            or not (np.isfinite(cur[0]) and cur[0] >= 0 and np.isfinite(cur[1]) and cur[1] > 0):
+        CTX.skip('writer.contract.zygo: outside the domain (not a 2-D map with a finite sample / no file name / dx, wavelength)')
+        return
+    step = cur[1] * 1e3 / 32768
+    if np.nanmax(np.abs(z.astype(float))) / step > 0.95 * 2 ** 31:
+        CTX.skip('writer.contract.zygo: map beyond the int32 range of the format')
+        return
+    low = lowprec(z, wl)
+    desc = {'fn': 'write_zygo_dat', 'shape': list(z.shape), 'dtype': str(z.dtype), 'dx': cur[0], 'wavelength': cur[1],
+            'precision': 32 if _is32() else 64, 'after': hist, 'class': 'contract'}
+    CTX.observe('writer.contract.zygo')
+    raw = open(path, 'rb').read()
+    try:
+        img, fdx, fwl, _ = ref.zygo_read(raw)
+    except Exception as e:  # noqa
+        CTX.violation('C14/zygo/writer/file-undecodable', f'the file written by write_zygo_dat cannot be decoded independently: {e!r}'[:200], desc)
+        return
+    if abs(fdx - cur[0]) > scalar_tol(cur[0], low):
+        CTX.violation(f'C14/zygo/writer/header-dx/{hist}', 'the lateral spacing in the written Zygo header is not the dx the writer was '
+                      f'given ({hist.replace("-", " ")})', desc, written_mm=fdx, given_mm=cur[0], previous_write=prev)
+    if abs(fwl - cur[1]) > scalar_tol(cur[1], low):
+        CTX.violation(f'C14/zygo/writer/header-wavelength/{wl_hist}', 'the wavelength in the written Zygo header is not the one the writer '
+                      'was given', desc, written_um=fwl, given_um=cur[1], previous_write=prev)
+    cls, _ = classify(img, z, tolerance(z, step, low))
+    if cls != 'ok':
+        def reproduces(parts):
+            z2, w2, prec = with_parts(z, wl, parts)
+            with precision(prec), tempfile.TemporaryDirectory(prefix='vp-c14c-') as td:
+                f = os.path.join(td, 'a.dat')
+                pio.write_zygo_dat(f, z2, cur[0], wavelength=w2)           # monitors are bypassed inside a contract
+                im2 = ref.zygo_read(open(f, 'rb').read())[0]
+                return classify(im2, z2, tolerance(z2, step, lowprec(z2, w2)))[0] != 'ok'
+        cfg = attribute_cfg(cfg_parts(z, wl), reproduces)
+        CTX.violation(f'C14/zygo/writer/{cls}{cfg}', f'the file written by write_zygo_dat does not encode the map it was given: {cls}',
+                      desc, decoded_shape=list(img.shape), max_err_nm=_maxerr(img, z), step_nm=step)
+
+
+def pre_write_codev(args, kwargs):
+    a = _bind(['array', 'filename', 'comment', 'typ', 'nnb'], args, kwargs)
+    try:
+        return np.array(a['array'], copy=True)
+    except Exception:  # noqa
+        return None
+
+
+def _codev_tol(z, step):
+    zf = np.abs(np.nan_to_num(np.asarray(z, dtype=float)))
+    return tolerance(z, step, True) if lowprec(z) else step * (1 + 1e-9) + 1e-12 * zf
+
+
+def post_write_codev(z, args, kwargs, result):
+    from prysm import io as pio
+    a = _bind(['array', 'filename', 'comment', 'typ', 'nnb'], args, kwargs, {'typ': 'SUR'})
+    path = _path_of(a['filename'])
+    if z is None or z.ndim != 2 or z.size == 0 or not np.isfinite(z).any() or np.isinf(z.astype(float)).any() or path is None \
+            or not os.path.exists(path) or str(a['typ']).upper() not in ('SUR', 'WFR'):
+        CTX.skip('writer.contract.codev: outside the domain (not a 2-D height map with a finite sample / FIL / no file name)')
+        return
+    desc = {'fn': 'write_codev_gridint', 'shape': list(z.shape), 'dtype': str(z.dtype), 'typ': str(a['typ']),
+            'precision': 32 if _is32() else 64, 'class': 'contract'}
+    CTX.observe('writer.contract.codev')
+
+    def decode(path_, z_):
+        img, h, ints = ref.codev_read(open(path_).read())
+        step = 1000.0 * h['wvl'] / abs(h['ssz'])
+        if not np.isfinite(step):
+            return None, step, h
+        cls, _ = classify(img, z_, _codev_tol(z_, step))
+        if cls in ('value>1step', 'nan-mask'):
+            want = np.rint(np.nan_to_num(np.asarray(z_, dtype=float)[::-1].ravel() / 1e3 / h['wvl'] * h['ssz']))
+            if (np.abs(want) > 32767).any():
+                cls = 'scale-overflows-int16'
+        return cls, step, img
+
+    try:
+        cls, step, img = decode(path, z)
+    except Exception as e:  # noqa
+        CTX.violation('C14/codev/writer/file-undecodable', f'the file written by write_codev_gridint cannot be decoded independently: {e!r}'[:200], desc)
+        return
+    if cls is None:
+        CTX.skip('codev: declared step not finite')
+        return
+    if cls != 'ok':
+        def reproduces(parts):
+            z2, _, prec = with_parts(z, None, parts)
+            with precision(prec), tempfile.TemporaryDirectory(prefix='vp-c14c-') as td:
+                f = os.path.join(td, 'a.int')
+                pio.write_codev_gridint(z2, f)
+                return decode(f, z2)[0] != 'ok'
+        cfg = attribute_cfg(cfg_parts(z), reproduces)
+        CTX.violation(f'C14/codev/writer/{cls}{cfg}', f'the file written by write_codev_gridint does not encode the map it was given: {cls}',
+                      desc, decoded_shape=list(img.shape), max_err_nm=_maxerr(img, z), step_nm=step)
+
+
+def post_read_zygo_dat(token, args, kwargs, result):
+    CTX.observe('reader.contract')
+    p, m = result['phase'], result['meta']
+    if p.ndim != 2 or p.shape != (m['cn_height'], m['cn_width']):
+        CTX.violation('C14/zygo/reader-shape-vs-header', 'read_zygo_dat phase shape differs from the header (cn_height, cn_width)',
+                      {'shape': list(p.shape), 'header': [m['cn_height'], m['cn_width']]})
+        return
+    path = _path_of(args[0] if args else kwargs.get('file'))
+    if path is None or not os.path.exists(path):
+        return
+    raw = open(path, 'rb').read()
+    try:
+        img, fdx, fwl, rawint = ref.zygo_read(raw)
+    except Exception:  # noqa  (truncated or foreign file: the truncation monitor decides those)
+        CTX.skip('reader.contract: file not decodable as a complete .dat by the independent decoder')
+        return
+    CTX.observe('reader.contract.zygo-eq-decoder')
+    low = _is32()
+    desc = {'fn': 'read_zygo_dat', 'shape': list(img.shape), 'precision': 32 if low else 64, 'class': 'contract'}
+    want_dt = np.float32 if low else np.float64
+    if p.dtype != np.dtype(want_dt):
+        CTX.violation('C14/zygo/reader/dtype', f'read_zygo_dat returns {p.dtype} under config.precision = {32 if low else 64}', desc)
+    scale = np.abs(np.nan_to_num(img))
+    cls, _ = classify(p, img, (LOWPREC_RTOL if low else 1e-12) * scale + 1e-300)
+    if cls != 'ok':
+        CTX.violation(f'C14/zygo/reader/{cls}' + ('/precision32' if low else ''),
+                      f'read_zygo_dat does not return what the file contains (independent decoder): {cls}', desc, max_err_nm=_maxerr(p, img))
+    if abs(m['lateral_resolution'] * 1e3 - fdx) > 1e-12 * abs(fdx) or abs(m['wavelength'] * 1e6 - fwl) > 1e-12 * abs(fwl):
+        CTX.violation('C14/zygo/reader/header-dx-or-wavelength', 'read_zygo_dat meta differs from the header fields of the file', desc,
+                      meta=[m['lateral_resolution'], m['wavelength']], file=[fdx / 1e3, fwl / 1e6])
+
+
+def post_read_codev(token, args, kwargs, result):
+    path = _path_of(args[0] if args else kwargs.get('file'))
+    if path is None or not os.path.exists(path):
+        return
+    try:
+        img, h, ints = ref.codev_read(open(path).read())
+    except Exception:  # noqa  (truncated / foreign file)
+        CTX.skip('reader.contract: file not decodable as a complete grid INT by the independent decoder')
+        return
+    if h.get('typ') == 'FIL' or not np.isfinite(1000.0 * h['wvl'] / h['ssz']):
+        return
+    got = np.asarray(result[0])
+    low = _is32()
+    CTX.observe('reader.contract.codev-eq-decoder')
+    desc = {'fn': 'read_codev_gridint', 'shape': list(img.shape), 'precision': 32 if low else 64, 'class': 'contract'}
+    cls, _ = classify(got, img, (LOWPREC_RTOL if low else 1e-12) * np.abs(np.nan_to_num(img)) + 1e-300)
+    if cls != 'ok':
+        CTX.violation(f'C14/codev/reader/{cls}' + ('/precision32' if low else ''),
+                      f'read_codev_gridint does not return what the file contains (independent decoder): {cls}', desc, max_err_nm=_maxerr(got, img))
+
+
+def install():
+    from prysm import io as pio
+    attach(pio, 'read_zygo_dat', post=post_read_zygo_dat)
+    attach(pio, 'read_codev_gridint', post=post_read_codev)
+    attach(pio, 'write_zygo_dat', pre=pre_write_zygo, post=post_write_zygo)
+    attach(pio, 'write_codev_gridint', pre=pre_write_codev, post=post_write_codev)
+
+
+def install_monitors(ctx):
+    global CTX
+    CTX = ctx
+    import prysm.interferogram  # noqa  (so that its aliases of the io functions are re-bound too)
+    install()
+
+
 # ---------------------------------------------------------------------------------------------- round trips
-def rt_zygo(ctx, tmp, desc, z, dx, wl, form, route):
+def write_zygo(path, zin, dx, wl, form, route):
     from prysm import io as pio
     from prysm.interferogram import Interferogram
-    path = os.path.join(tmp, f'z{ctx.shard}.dat')
-    step = wl * 1e3 / 32768
-    tol = step * (1 + 1e-9) + F32 * np.abs(np.nan_to_num(z))
-    fmt = 'zygo' if route == 'io' else 'ifg'
-    with ctx.guard(f'C14/{fmt}/roundtrip', desc):
-        zin = z.copy()
-        if route == 'io':
-            if form == 'handle':
-                pio.write_zygo_dat(open(path, 'wb'), zin, dx, wavelength=wl)
-            elif form == 'pathlib':
-                pio.write_zygo_dat(pathlib.Path(path), zin, dx, wavelength=wl)
-            else:
-                pio.write_zygo_dat(path, zin, dx, wavelength=wl)
-            r = pio.read_zygo_dat(path)
-            got, dx2, wl2 = r['phase'], r['meta']['lateral_resolution'] * 1e3, r['meta']['wavelength'] * 1e6
+    if route == 'io':
+        if form == 'handle':
+            pio.write_zygo_dat(open(path, 'wb'), zin, dx, wavelength=wl)
+        elif form == 'pathlib':
+            pio.write_zygo_dat(pathlib.Path(path), zin, dx, wavelength=wl)
+        elif form == 'kw':
+            pio.write_zygo_dat(file=path, phase=zin, dx=dx, wavelength=wl, intensity=None)
         else:
-            Interferogram(zin, dx=dx, wavelength=wl).save_zygo_dat(path)
-            j = Interferogram.from_zygo_dat(path)
-            got, dx2, wl2 = j.data, j.dx, j.wavelength
-        ctx.require('writer.input-untouched', np.array_equal(zin, z, equal_nan=True), f'C14/{fmt}/writer-mutates-input',
-                    'the writer modified the caller\'s array', desc)
-        cls, _ = classify(got, z, tol)
-        mon = 'roundtrip.zygo' if route == 'io' else 'roundtrip.ifg'
-        ctx.observe(mon)
-        if cls != 'ok':
-            key_fmt = fmt
-            detail = {}
-            raw = open(path, 'rb').read()
-            try:
-                rimg, _, _, _ = ref.zygo_read(raw)
-                detail['file_decoded_independently'] = classify(rimg, z, tol)[0]
-            except Exception as e:  # noqa
-                detail['file_decoded_independently'] = 'undecodable: ' + repr(e)[:80]
-            if route == 'ifg':
-                # same mechanism as the io-level pair?  then it is the io-level defect, not one of the Interferogram layer
-                with warnings.catch_warnings():
-                    warnings.simplefilter('ignore')
+            pio.write_zygo_dat(path, zin, dx, wavelength=wl)
+        return None
+    if route == 'ifg-default-dx':
+        ifg = Interferogram(zin, wavelength=wl)       # dx defaults to 0: no lateral calibration
+    else:
+        ifg = Interferogram(zin, dx=dx, wavelength=wl)
+    ifg.save_zygo_dat(path)
+    return ifg
+
+
+def read_zygo(path, route):
+    """(array, dx [mm], wavelength [um], object) through the io function or the Interferogram constructor."""
+    from prysm import io as pio
+    from prysm.interferogram import Interferogram
+    if route == 'io':
+        r = pio.read_zygo_dat(path)
+        return r['phase'], r['meta']['lateral_resolution'] * 1e3, r['meta']['wavelength'] * 1e6, r
+    j = Interferogram.from_zygo_dat(path)
+    return j.data, j.dx, j.wavelength, j
+
+
+def zygo_trip(tmp, tag, z, dx, wl, route, prec):
+    """One plain write->read of (z, dx, wl) under `prec` -> class (used for attribution, only on failures)."""
+    with precision(prec), warnings.catch_warnings():
+        warnings.simplefilter('ignore')
+        p2 = os.path.join(tmp, f'{tag}.dat')
+        write_zygo(p2, np.array(z, copy=True), dx, wl, 'path', route)
+        g, _, _, _ = read_zygo(p2, route)
+        return classify(g, z, tolerance(z, float(wl) * 1e3 / 32768, lowprec(z, wl)))[0]
+
+
+def judge_zygo(ctx, tmp, path, desc, z, dx, wl, got, dx2, wl2, route, mon, keyf):
+    """Compare what was read with what was written.  keyf(fmt, what) builds the violation key.  Returns the class."""
+    from prysm import io as pio
+    fmt = 'zygo' if route == 'io' else 'ifg'
+    step = float(wl) * 1e3 / 32768
+    low = lowprec(z, wl)
+    tol = tolerance(z, step, low)
+    cls, _ = classify(got, z, tol)
+    ctx.observe(mon)
+    if cls != 'ok':
+        key_fmt = fmt
+        detail = {}
+        raw = open(path, 'rb').read()
+        try:
+            rimg, _, _, _ = ref.zygo_read(raw)
+            detail['file_decoded_independently'] = classify(rimg, z, tol)[0]
+        except Exception as e:  # noqa
+            detail['file_decoded_independently'] = 'undecodable: ' + repr(e)[:80]
+        if route != 'io':
+            # same mechanism as the io-level pair?  then it is the io-level defect, not one of the Interferogram layer
+            with warnings.catch_warnings():
+                warnings.simplefilter('ignore')
+                try:
                     cls_io, _ = classify(pio.read_zygo_dat(path)['phase'], z, tol)
-                if cls_io == cls:
-                    key_fmt = 'zygo'
-            err = float(np.nanmax(np.abs(got - z))) if got.shape == z.shape and np.isfinite(got - z).any() else None
-            ctx.violation(f'C14/{key_fmt}/{cls}', f'Zygo .dat write->read ({route}) does not return the map that was written: {cls}',
-                          desc, got_shape=list(np.shape(got)), max_err_nm=err, step_nm=step, **detail)
-        ok = abs(dx2 - dx) <= F32 * dx and abs(wl2 - wl) <= F32 * wl
-        ctx.require(mon + '.dx-wavelength', ok, f'C14/{fmt}/dx-or-wavelength', 'dx / wavelength not returned to float32 resolution',
-                    desc, dx=[dx, dx2], wavelength=[wl, wl2])
+                except Exception:  # noqa
+                    cls_io = None
+            if cls_io == cls:
+                key_fmt = 'zygo'
+
+        def reproduces(parts):
+            z2, w2, prec = with_parts(z, wl, parts)
+            return zygo_trip(tmp, f'attr{ctx.shard}', z2, float(dx), w2, route, prec) != 'ok'
+        suffix = attribute_cfg(cfg_parts(z, wl), reproduces)
+        ctx.violation(keyf(key_fmt, cls + suffix), f'Zygo .dat write->read ({route}) does not return the map that was written: {cls}',
+                      desc, got_shape=list(np.shape(got)), max_err_nm=_maxerr(got, z), step_nm=step, **detail)
+    ok = abs(float(dx2) - float(dx)) <= scalar_tol(dx, low) and abs(float(wl2) - float(wl)) <= scalar_tol(wl, low)
+    ctx.require(mon + '.dx-wavelength', ok, keyf(fmt, 'dx-or-wavelength'), 'dx / wavelength not returned to float32 resolution',
+                desc, dx=[float(dx), float(dx2)], wavelength=[float(wl), float(wl2)])
+    return cls if ok else cls + '+dx-or-wavelength'
 
 
-def rt_codev(ctx, tmp, desc, z, form):
+def rt_zygo(ctx, tmp, desc, z, dx, wl, form, route, resave=False):
+    path = os.path.join(tmp, f'z{ctx.shard}.dat')
+    fmt = 'zygo' if route == 'io' else 'ifg'
+    mon = 'roundtrip.zygo' if route == 'io' else 'roundtrip.ifg'
+    plain = lambda f, w: f'C14/{f}/{w}'     # noqa: E731
+    with ctx.guard(f'C14/{fmt}/roundtrip', desc):
+        zin = z.copy(order='K') if z.flags.c_contiguous or z.flags.f_contiguous else z
+        keep = np.array(z, copy=True)
+        write_zygo(path, zin, dx, wl, form, route)
+        got, dx2, wl2, obj = read_zygo(path, route)
+        ctx.require('writer.input-untouched', np.array_equal(zin, keep, equal_nan=True), f'C14/{fmt}/writer-mutates-input',
+                    'the writer modified the caller\'s array', desc)
+        cls = judge_zygo(ctx, tmp, path, desc, keep, dx, wl, got, dx2, wl2, route, mon, plain)
+        if resave and cls == 'ok':
+            # write what the reader returned (its dtype, its NaNs, its strides, its scalars) and read that back: a plain
+            # round trip whose input came from the reader, so it is keyed like one
+            path2 = os.path.join(tmp, f'zr{ctx.shard}.dat')
+            d2 = dict(desc, resave=True, dtype=str(got.dtype), **{'class': desc['class'] + ':resave'})
+            again = np.array(got, copy=True)
+            if route == 'io':
+                write_zygo(path2, got, dx2, wl2, 'path', 'io')
+            else:
+                obj.save_zygo_dat(path2)
+            ctx.require('writer.input-untouched', np.array_equal(got, again, equal_nan=True), f'C14/{fmt}/writer-mutates-input',
+                        'the writer modified the caller\'s array', d2)
+            got3, dx3, wl3, _ = read_zygo(path2, route)
+            ctx.require('reader.earlier-result-untouched', np.array_equal(got, again, equal_nan=True), 'C14/zygo/reader-overwrites-earlier-result',
+                        'a later read changed the array an earlier read had returned to the caller', d2)
+            judge_zygo(ctx, tmp, path2, d2, again, dx2, wl2, got3, dx3, wl3, route, mon + '.resave', plain)
+
+
+def codev_trip(tmp, tag, z, prec):
+    from prysm import io as pio
+    with precision(prec), warnings.catch_warnings():
+        warnings.simplefilter('ignore')
+        p2 = os.path.join(tmp, f'{tag}.int')
+        write_codev(p2, np.array(z, copy=True), 'path')
+        g = pio.read_codev_gridint(p2)[0]
+        _, hdr, _ = ref.codev_split(open(p2).read())
+        h = ref.codev_header(hdr)
+        return classify(g, z, _codev_tol(z, 1000.0 * h['wvl'] / abs(h['ssz'])))[0]
+
+
+def judge_codev(ctx, tmp, path, desc, z, got, mon, keyf):
+    text = open(path).read()
+    detail = {}
+    try:
+        _, hdr, start = ref.codev_split(text)
+        h = ref.codev_header(hdr)
+        step = 1000.0 * h['wvl'] / abs(h['ssz'])
+        zf = np.asarray(z, dtype=float)
+        want = np.rint(np.nan_to_num(zf[::-1].ravel() / 1e3 / h['wvl'] * h['ssz']))
+        overflow = bool((np.abs(want) > 32767).any())
+        detail = {'header': hdr, 'int16_range_used': float(np.abs(want).max() / 32767)}
+        if np.abs(want).max() < 16384 and np.nanmax(np.abs(zf)) > 0:
+            ctx.event('codev: less than half of the int16 range used (reported, not asserted)')
+    except Exception as e:  # noqa
+        ctx.violation(keyf('written-header-undecodable'), f'independent decoder cannot parse the written header: {e!r}', desc)
+        return None
+    if not np.isfinite(step):
+        ctx.skip('codev: declared step not finite')
+        return None
+    tol = _codev_tol(z, step)
+    cls, _ = classify(got, z, tol)
+    ctx.observe(mon)
+    if cls != 'ok':
+        if cls in ('value>1step', 'nan-mask') and overflow:
+            # |value * declared SSZ| exceeds int16: wrapped samples are wrong, and the ones that wrap onto the
+            # NDA sentinel -32768 come back as NaN
+            cls = 'scale-overflows-int16'
+        try:
+            rimg, _, _ = ref.codev_read(text)
+            detail['file_decoded_independently'] = classify(rimg, z, tol)[0]
+        except Exception as e:  # noqa
+            detail['file_decoded_independently'] = 'undecodable: ' + repr(e)[:80]
+
+        def reproduces(parts):
+            z2, _, prec = with_parts(z, None, parts)
+            return codev_trip(tmp, f'attr{ctx.shard}', z2, prec) != 'ok'
+        suffix = attribute_cfg(cfg_parts(z), reproduces)
+        ctx.violation(keyf(cls + suffix), f'Code V grid INT write->read does not return the map that was written: {cls}',
+                      desc, got_shape=list(np.shape(got)), max_err_nm=_maxerr(got, z), step_nm=step, **detail)
+    return cls
+
+
+def write_codev(path, zin, form):
+    from prysm import io as pio
+    kw = {}
+    if form == 'wfr-nnb':
+        kw = {'typ': 'WFR', 'nnb': True, 'comment': 'verif map'}
+    elif form == 'lower-typ':
+        kw = {'typ': 'sur'}
+    if form == 'kw':
+        pio.write_codev_gridint(array=zin, filename=path, comment='kw form', typ='SUR', nnb=False)
+    else:
+        pio.write_codev_gridint(zin, pathlib.Path(path) if form == 'pathlib' else path, **kw)
+
+
+def rt_codev(ctx, tmp, desc, z, form, resave=False):
     from prysm import io as pio
     path = os.path.join(tmp, f'c{ctx.shard}.int')
+    plain = lambda w: f'C14/codev/{w}'     # noqa: E731
     with ctx.guard('C14/codev/roundtrip', desc):
-        zin = z.copy()
-        kw = {}
-        if form == 'wfr-nnb':
-            kw = {'typ': 'WFR', 'nnb': True, 'comment': 'verif map'}
-        elif form == 'lower-typ':
-            kw = {'typ': 'sur'}
-        pio.write_codev_gridint(zin, pathlib.Path(path) if form == 'pathlib' else path, **kw)
+        zin = z.copy(order='K') if z.flags.c_contiguous or z.flags.f_contiguous else z
+        keep = np.array(z, copy=True)
+        write_codev(path, zin, form)
         got, meta = pio.read_codev_gridint(path)
-        ctx.require('writer.input-untouched', np.array_equal(zin, z, equal_nan=True), 'C14/codev/writer-mutates-input',
+        ctx.require('writer.input-untouched', np.array_equal(zin, keep, equal_nan=True), 'C14/codev/writer-mutates-input',
                     'the writer modified the caller\'s array', desc)
-        text = open(path).read()
-        detail = {}
-        try:
-            _, hdr, start = ref.codev_split(text)
-            h = ref.codev_header(hdr)
-            step = 1000.0 * h['wvl'] / abs(h['ssz'])
-            want = np.rint(np.nan_to_num(z[::-1].ravel() / 1e3 / h['wvl'] * h['ssz']))
-            overflow = bool((np.abs(want) > 32767).any())
-            detail = {'header': hdr, 'int16_range_used': float(np.abs(want).max() / 32767)}
-            if np.abs(want).max() < 16384 and np.nanmax(np.abs(z)) > 0:
-                ctx.event('codev: less than half of the int16 range used (reported, not asserted)')
-        except Exception as e:  # noqa
-            ctx.violation('C14/codev/written-header-undecodable', f'independent decoder cannot parse the written header: {e!r}', desc)
-            return
-        if not np.isfinite(step):
-            ctx.skip('codev: declared step not finite')
-            return
-        tol = step * (1 + 1e-9) + 1e-12 * np.abs(np.nan_to_num(z))
-        cls, _ = classify(got, z, tol)
-        ctx.observe('roundtrip.codev')
-        if cls != 'ok':
-            if cls in ('value>1step', 'nan-mask') and overflow:
-                # |value * declared SSZ| exceeds int16: wrapped samples are wrong, and the ones that wrap onto the
-                # NDA sentinel -32768 come back as NaN
-                cls = 'scale-overflows-int16'
-            try:
-                rimg, _, _ = ref.codev_read(text)
-                detail['file_decoded_independently'] = classify(rimg, z, tol)[0]
-            except Exception as e:  # noqa
-                detail['file_decoded_independently'] = 'undecodable: ' + repr(e)[:80]
-            err = float(np.nanmax(np.abs(got - z))) if got.shape == z.shape and np.isfinite(got - z).any() else None
-            ctx.violation(f'C14/codev/{cls}', f'Code V grid INT write->read does not return the map that was written: {cls}',
-                          desc, got_shape=list(np.shape(got)), max_err_nm=err, step_nm=step, **detail)
+        cls = judge_codev(ctx, tmp, path, desc, keep, got, 'roundtrip.codev', plain)
+        if resave and cls == 'ok':
+            path2 = os.path.join(tmp, f'cr{ctx.shard}.int')
+            d2 = dict(desc, resave=True, dtype=str(got.dtype), **{'class': desc['class'] + ':resave'})
+            again = np.array(got, copy=True)
+            write_codev(path2, got, 'path')
+            ctx.require('writer.input-untouched', np.array_equal(got, again, equal_nan=True), 'C14/codev/writer-mutates-input',
+                        'the writer modified the caller\'s array', d2)
+            got3, _ = pio.read_codev_gridint(path2)
+            ctx.require('reader.earlier-result-untouched', np.array_equal(got, again, equal_nan=True), 'C14/codev/reader-overwrites-earlier-result',
+                        'a later read changed the array an earlier read had returned to the caller', d2)
+            judge_codev(ctx, tmp, path2, d2, again, got3, 'roundtrip.codev.resave', plain)
+
+
+ZFORMS = ['path', 'handle', 'pathlib', 'kw']
+CFORMS = ['path', 'wfr-nnb', 'pathlib', 'lower-typ', 'kw']
+
+
+def uncalibrated_first(ctx, tmp):
+    """dx == 0 ("no lateral calibration", the Interferogram default) BEFORE this process has written any calibrated file:
+    a wrong spacing here cannot be a left-over of an earlier write, so it is keyed as a plain round-trip failure."""
+    shapes = [(2, 3), (4, 4), (1, 5), (6, 2)]
+    k = -1
+    for si, shape in enumerate(shapes):
+        for route, zero in (('zygo', 0), ('ifg-default-dx', None), ('zygo', 0.0), ('ifg', 0), ('zygo', np.float64(0)), ('ifg', np.float32(0))):
+            for ci, (dt, prec) in enumerate(CFGS):
+                k += 1
+                if not ctx.mine(si * len(CFGS) + ci):        # every shard starts with all six forms for some (shape, configuration)
+                    continue
+                rng = np.random.default_rng([ctx.seed, 140, k])
+                wl = float(rng.uniform(0.4, 2.0))
+                z = make_values('mixed', shape, rng, 'zygo', wl)
+                ncls = put_nans(NAN_CLASSES[k % 4], z, rng)
+                z = z.astype(dt)
+                rname = 'zygo' if route == 'zygo' else 'ifg'
+                desc = {'wl': 'roundtrip', 'route': route, 'shape': shape, 'values': 'mixed', 'nan': ncls, 'dx': 0.0, 'wavelength': wl,
+                        'dx_arg': 'default' if zero is None else type(zero).__name__, 'dtype': dt, 'precision': prec, 'k': k,
+                        'class': f'rt:{rname}:uncalibrated-before-any-calibrated-write:{dt}/p{prec}'}
+                ctx.case(desc)
+                path = os.path.join(tmp, f'z{ctx.shard}.dat')
+                with precision(prec), ctx.guard(f'C14/{rname}/roundtrip', desc):
+                    keep = np.array(z, copy=True)
+                    write_zygo(path, z, zero, wl, 'path', 'io' if route == 'zygo' else route)
+                    got, dx2, wl2, obj = read_zygo(path, 'io' if route == 'zygo' else 'ifg')
+                    judge_zygo(ctx, tmp, path, desc, keep, 0.0, wl, got, dx2, wl2, 'io' if route == 'zygo' else 'ifg',
+                               'roundtrip.' + rname, lambda f, w: f'C14/{f}/{w}')
+                    if rname == 'ifg':
+                        ctx.require('roundtrip.ifg.latcal-flag', not getattr(obj, '_latcaled', False), 'C14/ifg/latcal-flag',
+                                    'an Interferogram loaded from a file written without lateral calibration claims to be calibrated', desc)
 
 
 def roundtrips(ctx, tmp):
+    uncalibrated_first(ctx, tmp)
     cases = []
     for shape in SHAPES_ENUM[:ctx.pick(14, len(SHAPES_ENUM))]:
         for v in VALUE_CLASSES:
             for n in NAN_CLASSES:
-                cases.append((shape, v, n))
-    nrand = ctx.pick(200, 6000)
+                cases.append((shape, v, n, None))
+    nrand = ctx.pick(200, 40000)
     rs = np.random.default_rng([ctx.seed, 14014])
-    hi = ctx.pick(24, 72)
+    hi = ctx.pick(24, 160)
     for _ in range(nrand):
-        kind = int(rs.integers(4))
+        kind = int(rs.integers(6))
         a, b = int(rs.integers(1, hi + 1)), int(rs.integers(1, hi + 1))
-        shape = [(a, b), (a, a), (1, b + 1), (a + 1, 1)][kind]
-        cases.append((shape, VALUE_CLASSES[int(rs.integers(len(VALUE_CLASSES)))], NAN_CLASSES[int(rs.integers(len(NAN_CLASSES)))]))
-    zforms = ['path', 'path', 'handle', 'pathlib']
-    cforms = ['path', 'path', 'wfr-nnb', 'pathlib', 'lower-typ']
-    for k, (shape, vcls, ncls) in enumerate(cases):
+        long = int(rs.integers(hi, 12 * hi))                     # extreme aspect ratios
+        shape = [(a, b), (a, a), (1, b + 1), (a + 1, 1), (1 + a % 3, long), (long, 1 + b % 3)][kind]
+        cases.append((shape, VALUE_CLASSES[int(rs.integers(len(VALUE_CLASSES)))], NAN_CLASSES[int(rs.integers(len(NAN_CLASSES)))],
+                      int(rs.integers(len(CFGS) + 1))))
+    n_enum = len(cases) - nrand
+    variant = 0          # running counter that de-correlates forms / scalar types / layouts from the enumeration order
+    for k, (shape, vcls, ncls, cfgpick) in enumerate(cases):
         if not ctx.mine(k):
             continue
         rng = np.random.default_rng([ctx.seed, 14, k])
-        dx = float(10 ** rng.uniform(-4, 2))
-        wl = float(10 ** rng.uniform(np.log10(0.2), np.log10(12)))
-        for route in ('zygo', 'ifg', 'codev'):
-            fmt = 'codev' if route == 'codev' else 'zygo'
-            z = make_values(vcls, shape, rng, fmt, wl)
-            ncls_eff = put_nans(ncls, z, rng)
-            if not np.isfinite(z).any():
-                ctx.skip('all-NaN map (outside the domain)')
-                continue
-            form = (cforms[k % len(cforms)] if route == 'codev' else zforms[k % len(zforms)])
-            layout = 'F' if k % 5 == 0 else 'C'
-            if layout == 'F':
-                z = np.asfortranarray(z)        # same map, column-major memory: the file must not depend on strides
-            desc = {'wl': 'roundtrip', 'route': route, 'shape': shape, 'values': vcls, 'nan': ncls_eff, 'form': form, 'k': k,
-                    'layout': layout, 'class': f'rt:{route}:{shape_class(shape)}:{vcls}:{ncls_eff}'}
-            if route != 'codev':
-                desc['dx'], desc['wavelength'] = dx, wl
-            ctx.case(desc, nontrivial=z.size >= 2)
-            if route == 'codev':
-                rt_codev(ctx, tmp, desc, z, form)
+        dx0 = float(10 ** rng.uniform(-4, 2))
+        wl0 = float(10 ** rng.uniform(np.log10(0.2), np.log10(12)))
+        int_ok = ncls == 'none' and vcls in ('mixed', 'pos-small', 'pos-large', 'neg', 'const+', 'const-', 'zero', 'nonneg-zero')
+        if cfgpick is None:
+            cfgs = list(CFGS)
+            if int_ok:
+                cfgs.append(INT_CFGS[(k // 4) % len(INT_CFGS)])
+        elif cfgpick == len(CFGS):
+            cfgs = [INT_CFGS[k % len(INT_CFGS)]] if int_ok else [CFGS[0]]
+        else:
+            cfgs = [CFGS[cfgpick]]
+        for dt, prec in cfgs:
+            for route in ('zygo', 'ifg', 'codev'):
+                variant += 1
+                fmt = 'codev' if route == 'codev' else 'zygo'
+                sk = SCALARS[variant % 3] if route != 'codev' else 'py'
+                wl = as_scalar(wl0, sk)
+                dx = as_scalar(dx0, SCALARS[(variant // 3) % 3]) if route != 'codev' else dx0
+                zm = make_values(vcls, shape, rng, fmt, float(wl))
+                ncls_eff = put_nans(ncls, zm, rng)
+                if not np.isfinite(zm).any():
+                    ctx.skip('all-NaN map (outside the domain)')
+                    continue
+                if dt == 'int16':
+                    zm = np.clip(zm, -3e4, 3e4)
+                z = as_dtype(zm, dt)
+                if fmt == 'zygo' and dt == 'float32' and vcls == 'huge':
+                    # float32 rounding of the map must not push it past the int32 range of the format
+                    lim = 0.93 * 2 ** 31 * float(wl) * 1e3 / 32768
+                    z = np.clip(z, -lim, lim).astype(dt)
+                layout = LAYOUTS[(variant // 2) % 4] if (variant % 3 == 0) else 'C'
+                z = as_layout(z, layout)
+                form = (CFORMS[(variant // 5) % len(CFORMS)] if route == 'codev' else ZFORMS[(variant // 5) % len(ZFORMS)])
+                resave = (variant % 4 == 1) or (ncls_eff != 'none' and variant % 2 == 1)
+                cfgname = f'{dt}/p{prec}'
+                desc = {'wl': 'roundtrip', 'route': route, 'shape': shape, 'values': vcls, 'nan': ncls_eff, 'form': form, 'k': k,
+                        'layout': layout, 'dtype': dt, 'precision': prec, 'resave': bool(resave),
+                        'class': f'rt:{route}:{shape_class(shape)}:{vcls}:{ncls_eff}:{cfgname}'}
+                if route != 'codev':
+                    desc['dx'], desc['wavelength'], desc['scalars'] = float(dx), float(wl), sk
+                ctx.case(desc, nontrivial=z.size >= 2)
+                with precision(prec):
+                    if route == 'codev':
+                        rt_codev(ctx, tmp, desc, z, form, resave=resave)
+                    else:
+                        rt_zygo(ctx, tmp, desc, z, dx, wl, form, 'io' if route == 'zygo' else 'ifg', resave=resave)
+    ctx.note('roundtrips', f'{n_enum} enumerated (shape, values, NaN) classes x {len(CFGS)} configurations (+ an integer container for '
+             f'NaN-free maps) x 3 routes; {nrand} random; about a third re-saved from the reader\'s result')
+
+
+# ---------------------------------------------------------------------------------------------- histories
+def _hist_map(rng, shape, vcls, ncls, wl, fmt):
+    z = make_values(vcls, shape, rng, fmt, wl)
+    put_nans(ncls, z, rng)
+    if not np.isfinite(z).any():
+        z.flat[0] = 1.0
+    return z
+
+
+SCRIPTS = {
+    # name: list of steps (route, dx-class, wavelength-class, shape-class, nan-class, index into CFGS)
+    'calibrated-then-dx0': [('io', 'a', 'w', 's', 'none', 0), ('io', '0', 'w', 's', 'none', 0), ('io', '0', 'w', 's', 'blob', 0),
+                            ('io', 'b', 'w', 's', 'none', 0), ('io', '0', 'w', 's', 'none', 0)],
+    'calibrated-then-ifg-default-dx': [('ifg', 'a', 'w', 's', 'corner', 0), ('ifg-default-dx', '0', 'w', 's', 'none', 0),
+                                       ('io', 'b', 'v', 's', 'none', 0), ('ifg-default-dx', '0', 'v', 't', 'none', 0)],
+    'dx0-first': [('io', '0', 'w', 's', 'none', 0), ('io', 'a', 'w', 's', 'none', 0), ('ifg', '0', 'w', 's', 'none', 0)],
+    'dx-a-b-a': [('io', 'a', 'w', 's', 'none', 0), ('io', 'b', 'w', 's', 'none', 0), ('io', 'a', 'w', 's', 'none', 0),
+                 ('ifg', 'b', 'w', 's', 'row', 0)],
+    'wavelength-a-b-a': [('io', 'a', 'w', 's', 'none', 0), ('io', 'a', 'v', 's', 'none', 0), ('ifg', 'a', 'w', 's', 'none', 0),
+                         ('io', 'a', 'default', 's', 'none', 0), ('io', 'a', 'v', 's', 'none', 0)],
+    'shape-big-small-big': [('io', 'a', 'w', 'big', 'blob', 0), ('io', 'a', 'w', 's', 'none', 0), ('codev', 'a', 'w', 'big', 'blob', 0),
+                            ('codev', 'a', 'w', 's', 'none', 0), ('io', 'a', 'w', 'big', 'none', 0), ('codev', 'a', 'w', 't', 'row', 0)],
+    'nan-then-clean': [('io', 'a', 'w', 's', 'row', 0), ('io', 'a', 'w', 's', 'none', 0), ('codev', 'a', 'w', 's', 'row', 0),
+                       ('codev', 'a', 'w', 's', 'none', 0), ('ifg', 'a', 'w', 's', 'blob', 0), ('ifg', 'a', 'w', 's', 'none', 0)],
+    'precision-32-then-64': [('io', 'a', 'w', 's', 'blob', 3), ('ifg', 'b', 'v', 's', 'corner', 3), ('codev', 'a', 'w', 's', 'blob', 3),
+                             ('io', 'a', 'w', 's', 'blob', 0), ('ifg', 'b', 'v', 's', 'corner', 0), ('codev', 'a', 'w', 's', 'blob', 0),
+                             ('io', '0', 'w', 's', 'none', 2), ('io', 'a', 'w', 's', 'none', 1)],
+    'same-object-twice': [('io', 'a', 'w', 's', 'blob', 0), ('same', 'a', 'w', 's', 'blob', 0), ('codev', 'a', 'w', 's', 'corner', 0),
+                          ('same', 'a', 'w', 's', 'corner', 0), ('ifg', 'a', 'w', 's', 'none', 1), ('same', 'a', 'w', 's', 'none', 1)],
+}
+
+
+def histories(ctx, tmp):
+    """Sequences of writes in one process; every file is judged on its own (against the map and scalars it was written
+    with, and by the writer contract against the independent decoder), then all are re-read in reverse order.  A failure
+    that the plain round trips of this process already showed is counted under that plain key (it does not depend on the
+    history); anything else is keyed by what was written before."""
+    from prysm import io as pio
+    names = list(SCRIPTS)
+    nrand = ctx.pick(8, 1600)
+    maxlen = ctx.pick(8, 40)
+    seqs = [(nm, SCRIPTS[nm]) for nm in names]
+    rs = np.random.default_rng([ctx.seed, 140014])
+    for i in range(nrand):
+        n = int(rs.integers(3, maxlen + 1))
+        steps = []
+        for _ in range(n):
+            route = ['io', 'io', 'ifg', 'ifg-default-dx', 'codev', 'same'][int(rs.integers(6))]
+            steps.append((route, ['a', 'b', '0', 'r'][int(rs.integers(4))], ['w', 'v', 'default', 'r'][int(rs.integers(4))],
+                          ['s', 't', 'big', 'r'][int(rs.integers(4))], NAN_CLASSES[int(rs.integers(4))], int(rs.integers(4))))
+        seqs.append(('random', steps))
+
+    def hkey(fmt, after, what):
+        base = what.split('/')[0]
+        k0 = fired(ctx, f'C14/{fmt}/{base}')
+        return k0 if k0 is not None else f'C14/{fmt}/history/{after}/{what}'
+
+    for si, (sname, steps) in enumerate(seqs):
+        if not ctx.mine(si):
+            continue
+        rng = np.random.default_rng([ctx.seed, 1400, si])
+        dxs = {'a': float(10 ** rng.uniform(-3, 1)), 'b': float(10 ** rng.uniform(-3, 1)), '0': 0.0}
+        wls = {'w': float(rng.uniform(0.4, 1.1)), 'v': float(rng.uniform(1.2, 10.6)), 'default': 0.6328}
+        shapes = {'s': (int(rng.integers(2, 7)), int(rng.integers(2, 7))), 'big': (int(rng.integers(9, 20)), int(rng.integers(9, 20)))}
+        shapes['t'] = shapes['s'][::-1] if shapes['s'][0] != shapes['s'][1] else (shapes['s'][0], shapes['s'][1] + 1)
+        written = []          # (fmt, route, path, z, dx, wl, desc, copy of the first read, object the first read returned, prec)
+        last = None
+        prev_z = {}
+        for ti, (route, dxc, wlc, shc, ncls, cfgi) in enumerate(steps):
+            dt, prec = CFGS[cfgi]
+            dx = dxs.get(dxc) if dxc != 'r' else float(10 ** rng.uniform(-4, 2))
+            wl = wls.get(wlc) if wlc != 'r' else float(10 ** rng.uniform(np.log10(0.2), np.log10(12)))
+            shape = shapes.get(shc) if shc != 'r' else (int(rng.integers(1, 12)), int(rng.integers(1, 12)))
+            if route == 'same' and last is None:
+                route = 'io'
+            if route == 'same':
+                # the same argument objects as the previous step, once more, to another file
+                fmt, route_eff, _, z, dx, wl, _, _, _, prec = last
+                dt = str(z.dtype)
             else:
-                rt_zygo(ctx, tmp, desc, z, dx, wl, form, 'io' if route == 'zygo' else 'ifg')
+                route_eff = route
+                fmt = 'codev' if route == 'codev' else 'zygo'
+                if route == 'ifg-default-dx':
+                    dx = 0.0
+                vcls = ['mixed', 'pos-large', 'neg', 'pos-small'][int(rng.integers(4))]
+                z = _hist_map(rng, shape, vcls, ncls, wl, fmt).astype(dt)
+            stepcls = _step_class(prev_z.get(fmt), dx, wl, tuple(z.shape)) if fmt == 'zygo' else \
+                ('first-write' if prev_z.get(fmt) is None else 'shape-changed' if prev_z[fmt][2] != tuple(z.shape) else 'same-shape-again')
+            if route == 'same':
+                stepcls = 'same-objects-again'
+            dxcls = dx_class(dx) if fmt == 'zygo' else None          # from the contracts' process-wide memory, before the write
+            prev_z[fmt] = (dx, wl, tuple(z.shape))
+            path = os.path.join(tmp, f'h{ctx.shard}_{ti}.{"int" if fmt == "codev" else "dat"}')
+            rname = 'ifg' if route_eff.startswith('ifg') else route_eff
+            desc = {'wl': 'history', 'script': sname, 'seq': si, 'step': ti, 'route': route, 'shape': list(z.shape), 'dx': dx, 'wavelength': wl,
+                    'dtype': dt, 'precision': prec, 'nan': ncls, 'after': stepcls, 'dx_history': dxcls,
+                    'steps_so_far': [s[0] + ':' + s[1] for s in steps[:ti + 1]][-6:],
+                    'class': f'history:{sname}:{rname}:{stepcls}'}
+            ctx.case(desc)
+            hfmt = 'codev' if fmt == 'codev' else rname if rname == 'ifg' else 'zygo'
+            with precision(prec), ctx.guard(f'C14/{hfmt}/history', desc):
+                keep = np.array(z, copy=True)
+                if fmt == 'codev':
+                    write_codev(path, z, 'path')
+                    got, _ = pio.read_codev_gridint(path)
+                    judge_codev(ctx, tmp, path, desc, keep, got, 'history.codev', lambda w: hkey('codev', stepcls, w))
+                else:
+                    write_zygo(path, z, dx, wl, ZFORMS[ti % len(ZFORMS)], route_eff)
+                    got, dx2, wl2, obj = read_zygo(path, 'io' if rname == 'io' else 'ifg')
+                    res = judge_zygo(ctx, tmp, path, desc, keep, dx, wl, got, dx2, wl2, 'io' if rname == 'io' else 'ifg', 'history.' + hfmt,
+                                     lambda f, w: hkey(f, dxcls if w == 'dx-or-wavelength' else stepcls, w))
+                    if rname == 'ifg' and 'dx-or-wavelength' not in res:
+                        ctx.require('history.ifg', bool(getattr(obj, '_latcaled', dx != 0)) == (dx != 0), f'C14/ifg/history/{dxcls}/latcal-flag',
+                                    'an Interferogram loaded from a file claims a lateral calibration the written one did not have '
+                                    '(or the reverse)', desc)
+                ctx.require('writer.input-untouched', np.array_equal(z, keep, equal_nan=True), f'C14/{hfmt}/writer-mutates-input',
+                            'the writer modified the caller\'s array', desc)
+                last = (fmt, route_eff, path, z, dx, wl, desc, np.array(got, copy=True), got, prec)
+                written.append(last)
+        # read histories: every file again, newest first, after scribbling over what the first read returned
+        for (fmt, route_eff, path, z, dx, wl, desc, first, firstobj, prec) in reversed(written):
+            rfmt = 'codev' if fmt == 'codev' else 'ifg' if route_eff.startswith('ifg') else 'zygo'
+            with precision(prec), ctx.guard(f'C14/{rfmt}/history/re-read', desc):
+                try:
+                    firstobj[...] = -12345.0           # the caller owns the returned array
+                except Exception:  # noqa (read-only result)
+                    pass
+                if fmt == 'codev':
+                    again = pio.read_codev_gridint(path)[0]
+                else:
+                    again = read_zygo(path, 'io' if rfmt == 'zygo' else 'ifg')[0]
+                ctx.require('history.re-read', again.shape == first.shape and np.array_equal(again, first, equal_nan=True),
+                            f'C14/{rfmt}/history/re-read-differs',
+                            'reading the same file again (after other files were read and the first result was overwritten by the caller) '
+                            'returns a different array', desc)
+    ctx.note('histories', f'{len(SCRIPTS)} scripted + {nrand} random write sequences (<= {maxlen} steps), all files re-read in reverse order')
 
 
 # ---------------------------------------------------------------------------------------------- truncation
@@ -329,7 +1010,7 @@ TRUNC_CODEV_FIRST = [((6, 6), 'mixed', 'none'), ((5, 5), 'mixed', 'blob')]
 
 def truncation(ctx, tmp):
     from prysm import io as pio
-    nfiles = ctx.pick(2, 40)
+    nfiles = ctx.pick(3, 320)
     k = -1
     for fmt in ('zygo', 'codev'):
         for fi in range(nfiles):
@@ -339,120 +1020,126 @@ def truncation(ctx, tmp):
             elif fi < len(TRUNC_FILES):
                 shape, vcls, ncls = TRUNC_FILES[fi]
             else:
-                shape = (int(rng.integers(1, 7)), int(rng.integers(1, 8)))
+                top = 7 if fi < 40 else 14
+                shape = (int(rng.integers(1, top)), int(rng.integers(1, top + 1)))
                 if shape == (1, 1):
                     shape = (1, 2)
                 vcls = ['mixed', 'pos-small', 'neg-small', 'huge'][int(rng.integers(4))]
                 ncls = NAN_CLASSES[int(rng.integers(4))]
+            prec = 32 if fi % 3 == 2 else 64          # the reader under both precisions (file 2 of the quick tier is precision 32)
             wl = 0.6328
             z = make_values(vcls, shape, rng, fmt, wl)
             # distinct, non-zero samples so that a zero-extended or mis-parsed sample can never equal the true one
             z = np.where(np.abs(z) < 1.0, z + np.sign(z + 1e-30) * 1.0, z) if vcls != 'huge' else z
             ncls = put_nans(ncls, z, rng)
+            if prec == 32:
+                z = z.astype(np.float32)
+                if vcls == 'huge' and fmt == 'zygo':
+                    z = np.clip(z, -0.93 * 2 ** 31 * wl * 1e3 / 32768, 0.93 * 2 ** 31 * wl * 1e3 / 32768).astype(np.float32)
             full = os.path.join(tmp, f't{ctx.shard}.{fmt}')
             cutp = os.path.join(tmp, f'u{ctx.shard}.{fmt}')
-            fdesc = {'wl': 'truncation', 'fmt': fmt, 'file': fi, 'shape': shape, 'values': vcls, 'nan': ncls}
-            try:
-                with warnings.catch_warnings():
-                    warnings.simplefilter('ignore')
+            fdesc = {'wl': 'truncation', 'fmt': fmt, 'file': fi, 'shape': shape, 'values': vcls, 'nan': ncls, 'precision': prec}
+            with precision(prec):
+                try:
+                    with warnings.catch_warnings():
+                        warnings.simplefilter('ignore')
+                        if fmt == 'zygo':
+                            pio.write_zygo_dat(full, z.copy(), 0.5, wavelength=wl)
+                            reader = lambda p: pio.read_zygo_dat(p)['phase']     # noqa
+                            step = wl * 1e3 / 32768
+                            tol = tolerance(z, step, prec == 32)
+                        else:
+                            pio.write_codev_gridint(z.copy(), full)
+                            reader = lambda p: pio.read_codev_gridint(p)[0]      # noqa
+                            _, hdr, start = ref.codev_split(open(full).read())
+                            h = ref.codev_header(hdr)
+                            st = 1000.0 * h['wvl'] / abs(h['ssz'])
+                            tol = tolerance(z, st, True) if prec == 32 else st * (1 + 1e-9) + 1e-12 * np.abs(np.nan_to_num(z))
+                        whole = reader(full)
+                except Exception as e:  # noqa  (the round-trip monitor reports these)
+                    ctx.skip(f'truncation file not usable: write/read raises {type(e).__name__}')
+                    continue
+                cls, to_orig = classify(whole, z, tol)
+                if to_orig is None:
+                    # the untruncated round trip is itself broken in a way that cannot be calibrated out; the round-trip
+                    # monitor reports it, the truncation monitor cannot decide on this file
+                    ctx.skip(f'truncation file skipped: untruncated round trip is {cls}')
+                    continue
+                if cls != 'ok':
+                    ctx.event(f'truncation calibrated through round-trip defect {fmt}/{cls}')
+                raw = open(full, 'rb').read()
+                text = raw.decode('ascii') if fmt == 'codev' else None
+                whole_o = to_orig(whole)
+                off = ref.zygo_layout(raw)[1] if fmt == 'zygo' else None
+                for cut in range(len(raw)):
+                    k += 1
+                    if not ctx.mine(k):
+                        continue
                     if fmt == 'zygo':
-                        pio.write_zygo_dat(full, z.copy(), 0.5, wavelength=wl)
-                        reader = lambda p: pio.read_zygo_dat(p)['phase']     # noqa
-                        step = wl * 1e3 / 32768
-                        tol = step * (1 + 1e-9) + F32 * np.abs(np.nan_to_num(z))
+                        miss = ref.zygo_missing(raw, cut)
+                        where = 'header' if cut < off else ('inside-sample' if (cut - off) % 4 else 'between-samples')
                     else:
-                        pio.write_codev_gridint(z.copy(), full)
-                        reader = lambda p: pio.read_codev_gridint(p)[0]      # noqa
-                        _, hdr, start = ref.codev_split(open(full).read())
-                        h = ref.codev_header(hdr)
-                        tol = (1000.0 * h['wvl'] / abs(h['ssz'])) * (1 + 1e-9) + 1e-12 * np.abs(np.nan_to_num(z))
-                    whole = reader(full)
-            except Exception as e:  # noqa  (the round-trip monitor reports these)
-                ctx.skip(f'truncation file not usable: write/read raises {type(e).__name__}')
-                continue
-            cls, to_orig = classify(whole, z, tol)
-            if to_orig is None:
-                # the untruncated round trip is itself broken in a way that cannot be calibrated out; the round-trip
-                # monitor reports it, the truncation monitor cannot decide on this file
-                ctx.skip(f'truncation file skipped: untruncated round trip is {cls}')
-                continue
-            if cls != 'ok':
-                ctx.event(f'truncation calibrated through round-trip defect {fmt}/{cls}')
-            raw = open(full, 'rb').read()
-            text = raw.decode('ascii') if fmt == 'codev' else None
-            whole_o = to_orig(whole)
-            off = ref.zygo_layout(raw)[1] if fmt == 'zygo' else None
-            for cut in range(len(raw)):
-                k += 1
-                if not ctx.mine(k):
-                    continue
-                if fmt == 'zygo':
-                    miss = ref.zygo_missing(raw, cut)
-                    where = 'header' if cut < off else ('inside-sample' if (cut - off) % 4 else 'between-samples')
-                else:
-                    miss, where = ref.codev_missing(text, cut, z.shape)
-                desc = dict(fdesc, cut=cut, of=len(raw), where=where, **{'class': f'trunc:{fmt}:{where}'})
-                ctx.case(desc)
-                with open(cutp, 'wb') as f:
-                    f.write(raw[:cut])
-                kind, out, warns = _read_with_warnings(reader, cutp)
-                ctx.observe(f'truncation.{fmt}')
-                if kind == 'exc':
-                    ctx.event(f'{fmt} truncated read rejected:{out}')
-                    continue
-                key = f'C14/{fmt}/truncate-{where}'
-                t = np.asarray(out)
-                if t.shape != whole.shape:
-                    # a smaller array is not "a full-size array of plausible numbers", but the lost samples are not marked
-                    ctx.violation(key + '/short-array', 'truncated file is read as a smaller array without an exception', desc,
-                                  got_shape=list(t.shape))
-                    continue
-                t_o = to_orig(t)
-                if not miss.any():
-                    ok = np.array_equal(t_o, whole_o, equal_nan=True)
-                    ctx.require('truncation.nothing-lost', ok, key + '/present-samples-changed',
-                                'no sample lost a byte, but the prefix reads differently from the whole file', desc)
-                    continue
-                unmarked = miss & ~np.isnan(t_o)
-                if unmarked.any():
-                    ctx.violation(key, f'{fmt}: file cut {where.replace("-", " ")} is returned as a full-size array with finite values '
-                                  'where the data is missing' + ('' if warns else ' and no warning'), desc,
-                                  n_missing=int(miss.sum()), n_unmarked=int(unmarked.sum()), warned=bool(warns),
-                                  got=t_o[unmarked][:4], true=whole_o[unmarked][:4])
-                    continue
-                present = ~miss
-                same = np.array_equal(t_o[present], whole_o[present], equal_nan=True)
-                over = present & np.isnan(t_o) & ~np.isnan(whole_o)
-                if not same and not (over.any() and np.array_equal(t_o[present & ~over], whole_o[present & ~over], equal_nan=True)):
-                    ctx.violation(key + '/present-samples-changed', 'samples whose bytes are all present read differently from the whole file',
-                                  desc)
-                    continue
-                if over.any():
-                    ctx.event(f'{fmt} truncated read marks more samples invalid than were lost')
-                if not warns:
-                    ctx.violation(key + '/no-warning', 'missing samples are marked invalid but no warning is issued', desc)
-    ctx.note('truncation', f'{nfiles} written files per format (Zygo .dat, Code V grid INT); every prefix length 0..len-1 enumerated')
+                        miss, where = ref.codev_missing(text, cut, z.shape)
+                    desc = dict(fdesc, cut=cut, of=len(raw), where=where, **{'class': f'trunc:{fmt}:{where}:p{prec}'})
+                    ctx.case(desc)
+                    with open(cutp, 'wb') as f:
+                        f.write(raw[:cut])
+                    kind, out, warns = _read_with_warnings(reader, cutp)
+                    ctx.observe(f'truncation.{fmt}')
+                    if kind == 'exc':
+                        ctx.event(f'{fmt} truncated read rejected:{out}')
+                        continue
+                    key = f'C14/{fmt}/truncate-{where}'
+                    t = np.asarray(out)
+                    if t.shape != whole.shape:
+                        # a smaller array is not "a full-size array of plausible numbers", but the lost samples are not marked
+                        ctx.violation(key + '/short-array', 'truncated file is read as a smaller array without an exception', desc,
+                                      got_shape=list(t.shape))
+                        continue
+                    t_o = to_orig(t)
+                    if not miss.any():
+                        ok = np.array_equal(t_o, whole_o, equal_nan=True)
+                        ctx.require('truncation.nothing-lost', ok, key + '/present-samples-changed',
+                                    'no sample lost a byte, but the prefix reads differently from the whole file', desc)
+                        continue
+                    unmarked = miss & ~np.isnan(t_o)
+                    if unmarked.any():
+                        ctx.violation(key, f'{fmt}: file cut {where.replace("-", " ")} is returned as a full-size array with finite values '
+                                      'where the data is missing' + ('' if warns else ' and no warning'), desc,
+                                      n_missing=int(miss.sum()), n_unmarked=int(unmarked.sum()), warned=bool(warns),
+                                      got=t_o[unmarked][:4], true=whole_o[unmarked][:4])
+                        continue
+                    present = ~miss
+                    same = np.array_equal(t_o[present], whole_o[present], equal_nan=True)
+                    over = present & np.isnan(t_o) & ~np.isnan(whole_o)
+                    if not same and not (over.any() and np.array_equal(t_o[present & ~over], whole_o[present & ~over], equal_nan=True)):
+                        ctx.violation(key + '/present-samples-changed', 'samples whose bytes are all present read differently from the whole file',
+                                      desc)
+                        continue
+                    if over.any():
+                        ctx.event(f'{fmt} truncated read marks more samples invalid than were lost')
+                    if not warns:
+                        ctx.violation(key + '/no-warning', 'missing samples are marked invalid but no warning is issued', desc)
+    ctx.note('truncation', f'{nfiles} written files per format (Zygo .dat, Code V grid INT; every third one written and read under '
+             'config.precision = 32); every prefix length 0..len-1 enumerated')
 
 
-# ---------------------------------------------------------------------------------------------- contract
-def post_read_zygo_dat(token, args, kwargs, result):
-    CTX.observe('reader.contract')
-    p, m = result['phase'], result['meta']
-    if p.ndim != 2 or p.shape != (m['cn_height'], m['cn_width']):
-        CTX.violation('C14/zygo/reader-shape-vs-header', 'read_zygo_dat phase shape differs from the header (cn_height, cn_width)',
-                      {'shape': list(p.shape), 'header': [m['cn_height'], m['cn_width']]})
-
-
+# ---------------------------------------------------------------------------------------------- run
 def run(ctx):
     global CTX
     CTX = ctx
-    from prysm import io as pio
-    attach(pio, 'read_zygo_dat', post=post_read_zygo_dat)
+    from prysm.conf import config
+    import prysm.interferogram  # noqa
+    old = 32 if config.precision is np.float32 else 64
+    _MEM.update(any_cal=False, last=None)
+    install()
     try:
         with tempfile.TemporaryDirectory(prefix='vp-c14-') as tmp:
             roundtrips(ctx, tmp)
             truncation(ctx, tmp)
+            histories(ctx, tmp)          # last: a failure the plain round trips already showed is not a history effect
     finally:
+        config.precision = old
         detach_all()
 
 
